@@ -1,7 +1,7 @@
 \* every history of length EmitAt-1 from the initial point, printed for replay
 SPECIFICATION Spec
 CONSTANTS
-  Points = {"p0", "p1", "p2"}
+  Points = {"p0", "p1", "p2", "q", "z"}
   Start = {"p0"}
   OMDefect = FALSE
   MaxHist = 16
